@@ -139,7 +139,23 @@ func BuildCreation(in CInst, calls *int32) (ro.Observable[any], error) {
 	return nil, fmt.Errorf("creation catalogue: no constructor for %q", in.Op)
 }
 
+// ReplayCreation runs one case under a watchdog: a Subscribe that never returns (a lock left held) is a hang, not an endless wait.
 func ReplayCreation(idx int, c *CCase, out *[]Mismatch) {
+	done := make(chan struct{})
+	var res []Mismatch
+	go func() {
+		defer close(done)
+		replayCreation(idx, c, &res)
+	}()
+	select {
+	case <-done:
+		*out = append(*out, res...)
+	case <-time.After(10 * time.Second):
+		*out = append(*out, Mismatch{Case: idx, Chain: c.Inst.Op, Mode: "sync", Step: -1, Class: "hang", Detail: "a call into the library did not return within 10s"})
+	}
+}
+
+func replayCreation(idx int, c *CCase, out *[]Mismatch) {
 	name := c.Inst.Op
 	add := func(step int, class, detail string) {
 		*out = append(*out, Mismatch{Case: idx, Chain: name, Mode: "sync", Step: step, Class: class, Detail: detail})
